@@ -423,7 +423,7 @@ func TestVerifC31(t *testing.T) {
 	for _, u := range untagged {
 		skip[u] = true
 	}
-	n := r.N(300, 20000)
+	n := r.N(300, 12000)
 	r.Cases("roundtrip", n, func(i int, id string, rng *vk.Rand) {
 		cfg := c31RandConfig(rng)
 		rendered, err := gotoml.Marshal(*cfg) // exactly what ctl.GenerateConfigCommand does
